@@ -80,7 +80,7 @@ var PANFilter = func(in string, data field.Field) string {
 var Track1Filter = func(in string, data field.Field) string {
 	track := field.Track1{}
 	if err := newTrackData(data, &track); err != nil {
-		return in
+		return maskUnparsedTrack(in)
 	}
 
 	track.PrimaryAccountNumber = PANFilter(track.PrimaryAccountNumber, nil)
@@ -90,7 +90,7 @@ var Track1Filter = func(in string, data field.Field) string {
 var Track2Filter = func(in string, data field.Field) string {
 	track := field.Track2{}
 	if err := newTrackData(data, &track); err != nil {
-		return in
+		return maskUnparsedTrack(in)
 	}
 
 	track.PrimaryAccountNumber = PANFilter(track.PrimaryAccountNumber, nil)
@@ -100,7 +100,7 @@ var Track2Filter = func(in string, data field.Field) string {
 var Track3Filter = func(in string, data field.Field) string {
 	track := field.Track3{}
 	if err := newTrackData(data, &track); err != nil {
-		return in
+		return maskUnparsedTrack(in)
 	}
 	track.PrimaryAccountNumber = PANFilter(track.PrimaryAccountNumber, nil)
 
@@ -118,9 +118,16 @@ func newTrackData(data, track field.Field) error {
 	return nil
 }
 
+// maskUnparsedTrack is what the track filters show of track data they cannot
+// take apart: the account number is somewhere inside, so only the first and
+// last four characters are kept.
+func maskUnparsedTrack(in string) string {
+	return PANFilter(in, nil)
+}
+
 func getTrackDataString(in string, track field.Field) string {
 	if converted, packErr := track.String(); packErr != nil {
-		return in
+		return maskUnparsedTrack(in)
 	} else {
 		return converted
 	}
